@@ -2,9 +2,12 @@
 
 case   = ("rt", schema, tree)            round trip an instance through dict / json / cbor / mgpk
        | ("load", schema, cidx, tree)    cls._fromdict(plain tree)
+       | ("seq", schema, [step, ...])    several calls in ONE process, in order:
+             step = ("rt", tree) | ("load", cidx, tree) | ("bad", base)   (bad: serialise a record holding an unserialisable object)
 schema = [(base, [(fname, ann, dflt), ...]), ...]      class k may only mention classes j < k
   base = raw | reg | tyme | iceraw | icereg | icetyme | map | icemap
-  ann  = ("any",) | ("prim", tname) | ("dom", j) | ("opt", j) | ("union", j) | ("list", j) | ("dictof", j) | ("strann", j)
+  ann  = ("any",) | ("prim", tname) | ("dom", j) | ("opt", j | [j1, j2, ..]) | ("union", j | [j1, ..]) | ("list", j) | ("dictof", j) | ("strann", j)
+         opt = Optional[A] / Optional[Union[A, B]],  union = A | None / A | B | None   (members tried in the listed order)
   dflt = None (required) | ("d", tree)
 tree   = ("null",) | ("bool", b) | ("int", i) | ("float", bits) | ("str", s) | ("list", [t..]) | ("dict", [(k, t)..]) | ("obj", j, [t..])
 """
@@ -42,19 +45,35 @@ def build_classes(schema):
     return classes
 
 
+def members(ann):
+    """class indices a class-like annotation may rebuild, in the order datify tries them"""
+    if ann[0] == "dom":
+        return [ann[1]]
+    if ann[0] in ("opt", "union"):
+        return list(ann[1]) if isinstance(ann[1], (list, tuple)) else [ann[1]]
+    return []
+
+
 def _pyann(ann, classes):
     k = ann[0]
     if k == "any":
         return typing.Any
     if k == "prim":
         return PRIMS[ann[1]]
+    if k == "opt":
+        ms = [classes[j] for j in members(ann)]
+        # Optional[Union[A, B]] is Union[A, B, None]; it is spelled flat here because typing caches Optional[X] by the
+        # EQUALITY of X and Union[A, B] == Union[B, A]: the nested spelling would silently reuse the member order of
+        # whichever of the two was created first in this process
+        return typing.Optional[ms[0]] if len(ms) == 1 else typing.Union[tuple(ms) + (type(None),)]
+    if k == "union":
+        t = None
+        for j in members(ann):
+            t = classes[j] if t is None else t | classes[j]
+        return t | None
     c = classes[ann[1]]
     if k == "dom":
         return c
-    if k == "opt":
-        return typing.Optional[c]
-    if k == "union":
-        return c | None
     if k == "list":
         return list[c]
     if k == "dictof":
@@ -147,8 +166,8 @@ def wire_schema(schema):
             a = ann[0]
             if a in ("any", "prim"):
                 w = "any"
-            elif a == "union":
-                w = ("opt", ann[1])
+            elif a in ("opt", "union"):
+                w = ("opt",) + tuple(members(ann))
             else:
                 w = (a, ann[1])
             fs.append(("fld", fname.encode("utf-8"), w, None if dflt is None else wire_tree(dflt[1])))
@@ -186,11 +205,17 @@ def upgradable(schema, j, t):
     return False
 
 
+def accepts(schema, j, names):
+    """would class j accept a dict with exactly these keys (all known, all required present)?"""
+    flds = schema[j][1]
+    return all(n in [f for f, _, _ in flds] for n in names) and all(f in names for f, _, d in flds if d is None)
+
+
 def misplaced_obj(schema, t, ann=("dom", None)):
     """K1 trigger: a nested data object sits somewhere datify does not rebuild (not directly in a class-annotated field)"""
     k = t[0]
     if k == "obj":
-        if not class_ann(ann) or (ann[1] is not None and ann[1] != t[1]):
+        if not class_ann(ann) or (ann[1] is not None and t[1] not in members(ann)):
             return True
         return any(misplaced_obj(schema, x, a) for x, (_, a, _) in zip(t[2], schema[t[1]][1]))
     if k == "list":
@@ -206,8 +231,20 @@ def upgraded_plain(schema, t, ann=("any",)):
     if k == "obj":
         return any(upgraded_plain(schema, x, a) for x, (_, a, _) in zip(t[2], schema[t[1]][1]))
     if class_ann(ann) and not has_obj(t):
-        return upgradable(schema, ann[1], t)
+        return any(upgradable(schema, j, t) for j in members(ann))
     return False
+
+
+def ambiguous_union(schema, t, ann=("dom", None)):
+    """K3 trigger: an object sits in a union-annotated field and a member tried EARLIER accepts its dict too"""
+    if t[0] != "obj":
+        return False
+    ms = members(ann) if class_ann(ann) and ann[1] is not None else []
+    if t[1] in ms:
+        names = [f for f, _, _ in schema[t[1]][1]]
+        if any(accepts(schema, j, names) for j in ms[:ms.index(t[1])]):
+            return True
+    return any(ambiguous_union(schema, x, a) for x, (_, a, _) in zip(t[2], schema[t[1]][1]) if class_ann(a))
 
 
 # ---------------------------------------------------------------- generators
@@ -269,7 +306,11 @@ def gen_schema(rng, dirty):
                 if dirty and r > 0.8:
                     ann = (rng.choice(["list", "dictof", "strann"]), j)
                 else:
-                    ann = (rng.choice(["dom", "dom", "opt", "union"]), j)
+                    kind = rng.choice(["dom", "dom", "opt", "union", "opt", "union"])
+                    if kind != "dom" and k >= 2 and rng.random() < 0.6:
+                        ann = (kind, rng.sample(range(k), rng.choice([2, 2, 3]) if k >= 3 else 2))
+                    else:
+                        ann = (kind, j)
             if base in ("tyme", "icetyme") or rng.random() < 0.5:
                 d = rng.random()
                 if d < 0.5:
@@ -291,13 +332,14 @@ def gen_value(rng, schema, ann, depth, dirty):
     a = ann[0]
     if a in ("dom", "opt", "union"):
         r = rng.random()
+        ms = members(ann)
         if r < 0.7 and depth > 0:
-            return gen_obj(rng, schema, ann[1], depth - 1, dirty)
+            return gen_obj(rng, schema, rng.choice(ms), depth - 1, dirty)      # a value of EVERY member, not just the first
         if r < 0.85:
             return ("null",)
         if dirty and r < 0.95:
             return rng.choice([("dict", []), ("list", []), ("str", ""), gen_plain(rng, 1),
-                               ("dict", [(f, gen_leaf(rng)) for f, _, _ in schema[ann[1]][1][:rng.randrange(0, 4)]])])
+                               ("dict", [(f, gen_leaf(rng)) for f, _, _ in schema[rng.choice(ms)][1][:rng.randrange(0, 4)]])])
         return rng.choice([("int", 7), ("bool", True), ("float", sx.fbits(2.5)), ("str", "s")])
     if a in ("list", "dictof", "strann") or (dirty and rng.random() < 0.15):
         if a == "strann" or a in ("any", "prim"):
@@ -325,6 +367,32 @@ def gen_rt(rng):
     return ("rt", schema, gen_obj(rng, schema, top, 3, dirty))
 
 
+def gen_seq(rng):
+    """several calls in one process on one schema: round trips of different (and repeated) instances, loads, and
+    serialisations that must fail, interleaved"""
+    dirty = rng.random() < 0.15
+    schema = gen_schema(rng, dirty)
+    raw = [j for j, (b, _) in enumerate(schema) if b in RAW_BASES] or [len(schema) - 1]
+    steps = []
+    trees = []
+    for _ in range(rng.choice([2, 3, 3, 4, 5, 6])):
+        r = rng.random()
+        if r < 0.25:
+            steps.append(("bad", rng.choice(["raw", "iceraw", "reg", "icetyme"])))
+        elif r < 0.35 and trees:
+            steps.append(("rt", rng.choice(trees)))            # the same instance again, later in the history
+        elif r < 0.45:
+            j = rng.randrange(len(schema))
+            steps.append(("load", j, ("dict", [(f, gen_plain(rng, 1)) for f, _, _ in schema[j][1] if rng.random() < 0.8])))
+        else:
+            t = gen_obj(rng, schema, rng.choice(raw), 3, dirty)
+            trees.append(t)
+            steps.append(("rt", t))
+    if not any(s[0] == "rt" for s in steps):
+        steps.append(("rt", gen_obj(rng, schema, rng.choice(raw), 2, dirty)))
+    return ("seq", schema, steps)
+
+
 def gen_load(rng):
     schema = gen_schema(rng, rng.random() < 0.3)
     j = rng.randrange(len(schema))
@@ -335,7 +403,7 @@ def gen_load(rng):
         for fname, ann, dflt in flds:
             if rng.random() < 0.8:
                 if ann[0] in ("dom", "opt", "union") and rng.random() < 0.7:
-                    sub = schema[ann[1]][1]
+                    sub = schema[rng.choice(members(ann))][1]
                     v = ("dict", [(f, gen_plain(rng, 1)) for f, _, _ in sub if rng.random() < 0.85])
                 else:
                     v = gen_plain(rng, 2)
